@@ -1,7 +1,7 @@
 (* C08: today's behaviour that violates the property, on the `_current` variant of the model.
    eval_query_current mirrors FillTransform: fill(previous) of a descending query is computed in iteration order. *)
 From Coq Require Import ZArith List Bool.
-From OG Require Import C08.Model C08.Proofs C08.Rpn C08.Prune.
+From OG Require Import C08.Model C08.Proofs C08.Rpn C08.Prune C08.Window.
 Import ListNotations.
 Open Scope Z_scope.
 
@@ -60,3 +60,8 @@ Theorem C08_limit_prune_current_refuted :
   limit_answer 1 (prune_current 1 [wA; wB]) <> limit_answer 1 (map snd [wA; wB]).
 Proof. exact prune_current_refuted. Qed.
 Print Assumptions C08_limit_prune_current_refuted.
+
+(* the bucket function without the correction of Go's negative remainder: a time before the epoch leaves its bucket *)
+Theorem C08_window_nocorr_refuted : exists t d, (0 < d)%Z /\ ~ (fst (window_nocorr t d 0) <= t)%Z.
+Proof. exact window_nocorr_refuted. Qed.
+Print Assumptions C08_window_nocorr_refuted.
